@@ -436,7 +436,14 @@ def run_reject(case, rec):
             da = dense(a).copy()
             what = case['o']
             if what == 'clear': a.clear()
-            elif what == 'setitem': a[mk_index(case['ix'])[0]] = build(case['R'])
+            elif what in ('setitem', 'setitem-slice', 'setitem-fancy'): a[mk_index(case['ix'])[0]] = build(case['R'])
+            elif what == 'setitem-mask': a[np.array(case['mask'])] = build(case['R'])
+            elif what == 'copy_like': a.copy_like(build({'k': case['L']['k'], 'v': (np.array(case['L']['v']) + 1.).tolist()}))
+            elif what == 'mix_from': a.mix_from([build({'k': 'sv', 'v': [1.] * len(case['L']['v'])})])
+            elif what == 'remove_negatives': a.remove_negatives()
+            elif what == 'from_flat_array': a.from_flat_array(np.ones(int(np.size(da))))
+            elif what == 'row-view-iadd':
+                row = a[0]; row += build(case['R'])
             else: TABLES['inp'][what](a, build(case['R']))
             after = dense(a)
             changed = not np.array_equal(after, da)
@@ -765,10 +772,19 @@ def gen_reject(rng):
         n = rng.choice([2, 3, 4])
         tk = rng.choice(['sv', 'sa'])
         L = {'k': 'sv', 'v': fv(rng, n, vals)} if tk == 'sv' else {'k': 'sa', 'v': [fv(rng, n, vals) for _ in range(rng.choice([1, 2]))]}
-        what = rng.choice(['iadd', 'isub', 'imul', 'itruediv', 'clear', 'setitem'])
+        what = rng.choice(['iadd', 'isub', 'imul', 'itruediv', 'clear', 'setitem', 'setitem-slice', 'setitem-fancy', 'setitem-mask', 'copy_like', 'mix_from', 'remove_negatives', 'from_flat_array', 'row-view-iadd'])
+        if what == 'mix_from' and tk == 'sa': what = 'copy_like'
+        if what == 'row-view-iadd' and tk == 'sv': what = 'iadd'
         case = {'t': 'rej', 'kind': 'readonly', 'L': L, 'o': what, 'R': {'k': 'scalar', 'v': rng.choice([1., 2., .5])}, 'tag': f'{tk}/{what}'}
+        m_ = 1 if tk == 'sv' else len(L['v'])
         if what == 'setitem':
             case['ix'] = {'t': 'int', 'i': 0} if tk == 'sv' else {'t': 'tuple', 'v': [{'t': 'int', 'i': 0}, {'t': 'int', 'i': 0}]}
+        elif what == 'setitem-slice':
+            case['ix'] = {'t': 'slice'} if tk == 'sv' else rng.choice([{'t': 'tuple', 'v': [{'t': 'slice'}, {'t': 'int', 'i': 0}]}, {'t': 'int', 'i': 0}, {'t': 'slice'}])
+        elif what == 'setitem-fancy':
+            case['ix'] = {'t': 'ilist', 'v': [0, n - 1]} if tk == 'sv' else {'t': 'tuple', 'v': [{'t': 'ilist', 'v': [0, m_ - 1]}, {'t': 'ilist', 'v': [0, n - 1]}]}
+        elif what == 'setitem-mask':
+            case['mask'] = [rng.random() < 0.6 for _ in range(n)] if tk == 'sv' else [[rng.random() < 0.6 for _ in range(n)] for _ in range(m_)]
         return case
     else:
         # slice assignment with a mismatching shape: NumPy raises, so must the sparse array
